@@ -1,10 +1,10 @@
 (* C25 — Paired conversion functions are mutually inverse.
    Models: Model/{IntText,Ip,Entries,Flatten,UnixTs,TsText}.v.  Nothing but statements here. *)
 From Coq Require Import String.
-From Coq Require Import List NArith ZArith Bool.
+From Coq Require Import List NArith ZArith Bool Lia.
 From VRL Require Import Base.Bytes Base.Value Base.Lit Model.ConvRes Model.IntText Model.Ip Model.Entries
   Model.Flatten Model.UnixTs Model.TsText
-  Proofs.IntTextProofs Proofs.IpProofs Proofs.EntriesProofs Proofs.UnixTsProofs.
+  Proofs.IntTextProofs Proofs.IpProofs Proofs.Ip6Proofs Proofs.EntriesProofs Proofs.UnixTsProofs Proofs.FlattenProofs.
 Import ListNotations.
 Local Open Scope list_scope.
 Local Open Scope Z_scope.
@@ -57,6 +57,20 @@ Theorem C25_ntop_pton_v4 : forall b,
 Proof. exact ntop_pton_roundtrip_v4. Qed.
 Print Assumptions C25_ntop_pton_v4.
 
+(* every IPv6 address: the text std prints for it (RFC 5952: lower-case hex groups, the first longest run of
+   two or more zero groups written "::", "::ffff:a.b.c.d" for IPv4-mapped addresses) is read back by
+   IpAddr::from_str as the same eight segments *)
+Theorem C25_ipv6_text : forall G,
+  length G = 8%nat -> Forall u16 G -> parse_ip (ipv6_to_string G) = Some (V6 G).
+Proof. exact ipv6_text_roundtrip. Qed.
+Print Assumptions C25_ipv6_text.
+
+Theorem C25_ntop_pton_v6 : forall b,
+  length b = 16%nat -> wf_bytes b = true ->
+  exists s, ip_ntop (VBytes b) = ROk (VBytes s) /\ ip_pton (VBytes s) = ROk (VBytes b).
+Proof. exact ntop_pton_roundtrip_v6. Qed.
+Print Assumptions C25_ntop_pton_v6.
+
 (* ---------------- ip_to_ipv6 / ipv6_to_ipv4 on IPv4-mapped addresses ---------------- *)
 
 (* a.b.c.d -> "::ffff:a.b.c.d" -> a.b.c.d; read from the right it is also
@@ -76,6 +90,39 @@ Theorem C25_entries : forall m,
   to_entries (VObj m) = ROk (VArr (map entry_of m)) /\ from_entries (VArr (map entry_of m)) = ROk (VObj m).
 Proof. exact entries_roundtrip. Qed.
 Print Assumptions C25_entries.
+
+(* ---------------- flatten / unflatten ---------------- *)
+
+(* Every object that is flat_ok (Proofs/FlattenProofs.v): keys strictly increasing at every object level,
+   every key separator-safe (`no_early`: the separator occurs neither inside the key nor straddling the end
+   of key ++ separator), every object nested under an object key non-empty.  Arrays and scalars are leaves:
+   nothing is asked of them or of what they contain (empty arrays, objects inside arrays are fine).
+   flatten with that separator and no `except`, then unflatten with it (recursive or not) restores it. *)
+Theorem C25_flatten : forall sep m r,
+  sep <> [] -> flat_ok sep m = true ->
+  exists y, flatten (VObj m) (VBytes sep) [] = ROk y /\ unflatten y (VBytes sep) (VBool r) = ROk (VObj m).
+Proof. exact flatten_unflatten. Qed.
+Print Assumptions C25_flatten.
+
+(* in the property's own words for a one-character separator (".", "_", ...): no key contains it and no
+   nested object is empty *)
+Theorem C25_flatten_single_char_separator : forall c m r,
+  flat_plain [c] m = true ->
+  exists y, flatten (VObj m) (VBytes [c]) [] = ROk y /\ unflatten y (VBytes [c]) (VBool r) = ROk (VObj m).
+Proof. exact flatten_unflatten_single. Qed.
+Print Assumptions C25_flatten_single_char_separator.
+
+(* with a separator that overlaps itself "no key contains the separator" is not enough:
+   {"xa": {"c": 1}} with separator "aa" comes back as {"x": {"ac": 1}} *)
+Theorem C25_flatten_bordered_separator_refuted : exists sep m,
+  sep <> [] /\ flat_plain sep m = true /\
+  exists y z, flatten (VObj m) (VBytes sep) [] = ROk y /\ unflatten y (VBytes sep) (VBool true) = ROk z /\ z <> VObj m.
+Proof.
+  exists (hx "6161"), [(hx "7861", VObj [(hx "63", VInt 1)])].
+  split; [discriminate|]. split; [reflexivity|].
+  eexists. eexists. split; [reflexivity|]. split; [vm_compute; reflexivity|]. vm_compute. discriminate.
+Qed.
+Print Assumptions C25_flatten_bordered_separator_refuted.
 
 (* ---------------- to_unix_timestamp / from_unix_timestamp ---------------- *)
 
@@ -113,3 +160,19 @@ Example C25_hypotheses_nonvacuous :
       /\ from_unix_timestamp (VInt (-2)) Seconds = ROk (VTs (-2000000000)))
   /\ ts_in_range (ts_min_secs * 1000000000) = true /\ ts_in_range (ts_max_secs * 1000000000 + 999999999) = true.
 Proof. vm_compute. repeat split; congruence. Qed.
+
+Example C25_ipv6_nonvacuous :
+  Forall u16 [8193; 3512; 0; 0; 1; 0; 0; 1] /\ ipv6_to_string [8193; 3512; 0; 0; 1; 0; 0; 1] = ascii_bytes "2001:db8::1:0:0:1"
+  /\ ipv6_to_string [0; 0; 0; 0; 0; 0; 0; 0] = ascii_bytes "::"
+  /\ ipv6_to_string [0; 0; 0; 0; 0; 65535; 258; 772] = ascii_bytes "::ffff:1.2.3.4"
+  /\ ipv6_to_string [1; 0; 2; 0; 3; 0; 4; 0] = ascii_bytes "1:0:2:0:3:0:4:0".
+Proof. split; [unfold u16; repeat constructor; lia | vm_compute; repeat split; reflexivity]. Qed.
+
+Example C25_flatten_nonvacuous :
+  let m := [(hx "61", VObj [(hx "", VArr []); (hx "782e61", VObj [(hx "63", VArr [VObj []; VObj [(hx "702e71", VNull)]])])]);
+            (hx "62", VInt 7)] in
+  flat_ok (hx "2e2e") m = true                      (* separator ".." ; the key "x.a" holds half of it *)
+  /\ flat_plain (hx "2e") [(hx "61", VObj [(hx "62", VInt 1)]); (hx "63", VArr [])] = true
+  /\ flatten (VObj m) (VBytes (hx "2e2e")) [] =
+     ROk (VObj [(hx "612e2e", VArr []); (hx "612e2e782e612e2e63", VArr [VObj []; VObj [(hx "702e71", VNull)]]); (hx "62", VInt 7)]).
+Proof. vm_compute. repeat split; reflexivity. Qed.
